@@ -113,8 +113,15 @@ def run_values(rep, r, wd, quick):
         combos = [(c, m_) for c in cfgs for m_ in mods]
         if quick:      # stratified: every term on 3 of the 12 (backend, modifier) combinations
             combos = [combos[(i + j * 5) % len(combos)] for j in range(3)]
-        for c, m_ in combos:
-            jobs.append({"term": term, "cfg": dict(c, mod=m_), "ops": ["Call", "Call", "Memento", "Forget", "Call", "Call", "Memento"]})
+        if term["t"] in ("nd", "index", "series", "frame", "partition"):
+            # results the cache can only hold weakly: a budget every one of them exceeds, the caller keeps the value
+            tiny = {"backend": "fs", "budget": 64}
+            combos = combos + ([(tiny, m_) for m_ in mods] if not quick else [(tiny, mods[i % 3])])
+        for j, (c, m_) in enumerate(combos):
+            ops = ["Call", "Call", "Memento", "Forget", "Call", "Call", "Memento"]
+            if c.get("budget") == 64 or (i + j) % 4 == 3:
+                ops = ["Call", "Forget", "Call", "Call", "Memento", "Forget", "Forget", "Call"]     # forget straight after the first call
+            jobs.append({"term": term, "cfg": dict(c, mod=m_), "ops": ops})
     traces = common.run_jobs("values_worker.py", jobs, wd, timeout=2400)
     payload = [{"cfg": values.mon_cfg(t["term"], t["cfg"]["mod"]), "ev": t["ev"]} for t in traces]
     rej, vr = tlc.validate_traces("TraceTransparent", payload, wd, timeout=1500)
